@@ -17,7 +17,8 @@ def matrices():
         for line in open(path):
             f = line.rstrip("\n").split("\t")
             if len(f) >= 6:
-                m.setdefault(f[0], {})[tier] = {"check": f"./check {f[1]} {tier}", "verdict": f[2], "exit": f[3],
+                own = f[0].split("_")[0] == f[1]
+                m.setdefault(f[0], {})[tier if own else f"{tier}:{f[1]}"] = {"check": f"./check {f[1]} {tier}", "verdict": f[2], "exit": f[3],
                                                 "signature": f[4], "seconds": int(f[5] or 0)}
     return m
 
